@@ -488,8 +488,12 @@ def read_union(
             idx_reader_schema["name"] if idx_reader_schema else idx_schema["name"]
         )
         return (schema_name, result)
-    elif return_record_name and extract_record_type(idx_schema) not in AVRO_TYPES:
-        # idx_schema is a named type
+    elif (
+        return_record_name
+        and extract_record_type(idx_schema) not in AVRO_TYPES
+        and named_schemas["writer"][idx_schema]["type"] == "record"
+    ):
+        # idx_schema is the name of a record
         schema_name = (
             named_schemas["reader"][idx_reader_schema]["name"]
             if idx_reader_schema
